@@ -66,6 +66,26 @@ def h_algebra(ci):
         c.check('d-unchanged', same_items(d, snap) and same_items(o, ovals))
     return h
 
+UPOOL = ['_a', '__b', 'c_', 'keys']
+def h_attr(ci):
+    """attribute access mirrors item access for every key, also keys that start with an underscore or carry the name of a dict method"""
+    def h(c):
+        cls = classes()[ci]
+        present = [k for k in UPOOL if c.choice('d.has.%s' % k, 2)]
+        vals = {k: c.int('d.%s' % k, -9, 9) for k in present}
+        d = cls(vals)
+        for k in UPOOL:
+            if k in vals:
+                if k != 'keys': c.check('attribute-mirrors-item-for-underscore-keys', hasattr(d, k) and getattr(d, k) is vals[k] and d[k] is vals[k])
+            elif k in ('_a', 'c_'):
+                try:
+                    getattr(d, k); c.fail('absent-key-is-no-attribute')
+                except AttributeError: pass
+        r = d.relabel(c_ = '_c') if 'c_' in vals and '_c' not in vals else None
+        if r is not None: c.check('attribute-mirrors-item-after-relabel-to-an-underscore-name', getattr(r, '_c') is vals['c_'])
+        c.check('d-unchanged', same_items(d, vals))
+    return h
+
 def h_relabel(ci):
     def h(c):
         cls = classes()[ci]
@@ -154,6 +174,7 @@ def obligations(tier):
         for nsel in range(3):
             obs.append(Ob('algebra.%s.sel%d' % (names[ci], nsel), h_algebra(ci), pins = {'sel.n': nsel}, budget_s = 300 if q else 1200,
                           desc = 'd - keys, d & keys, d[keys], d[k1,k2], d + other, attribute access, class kept, d unchanged (%s, %d selected keys)' % (names[ci], nsel)))
+        obs.append(Ob('attribute.unusual-keys.%s' % names[ci], h_attr(ci), budget_s = 300, desc = 'getattr(d, k) is d[k] for keys starting with underscores / ending with one; an absent key is an AttributeError'))
         obs.append(Ob('relabel.%s' % names[ci], h_relabel(ci), budget_s = 300, desc = 'relabel (suffix, prefix, callable, keyword, dict, a swap of two labels, a chain a->b->c) returns a new mapping of the same class with all renames applied at once'))
     keys = ['p', 'q', 'r'] if q else ['p', 'q', 'r', 's']
     opts = argsets(keys)
